@@ -45,7 +45,11 @@ LEVEL_TEXT = ("Theorems (Props/C14.v) over Coq's reals about the six maps re-ext
               "leaves every stored parameter unchanged; by induction over operation sequences every model "
               "reachable by construction and any history of accepted or refused assignments (augmented "
               "assignments included as long as none is refused) holds only finite cells with positive "
-              "conductivity / mu_r / epsilon_r and keeps anisotropy case and map.")
+              "conductivity / mu_r / epsilon_r and keeps anisotropy case and map.  Gradient glue (round 7): "
+              "for every anisotropy case, mapping and row, the row of direction d of the converted gradient is "
+              "the conductivity-gradient row times chain(m)(property_d) and is the derivative with respect to "
+              "the mapped parameter of direction d (pairing by name; the positional pairing with the x-fallback "
+              "list is proved equal off VTI and refuted for VTI).")
 LEVEL_NOTE = ("Trusted: Coq kernel; the ast extractor py/vlib/mapsgen.py (np.log10 x read as ln x/ln 10, "
               "c**e as exp(e ln c)); additionally validated by evaluating the extracted trees in Python "
               "against the Map* methods to 1e-12. Real arithmetic, not IEEE: overflow/underflow of "
@@ -57,7 +61,11 @@ LEVEL_NOTE = ("Trusted: Coq kernel; the ast extractor py/vlib/mapsgen.py (np.log
               "(`model.p *= -1`) has already changed the stored array -- numpy operates in place before the "
               "setter runs -- so the invariant carries the side condition aug_clean (Example "
               "fault_path_examples exhibits it); in-place edits through the getter view bypass validation "
-              "altogether and are outside the invariant.")
+              "altogether and are outside the invariant. The pairing model glue_by_name (Model/GradGlue.v) is a hand "
+              "model: anchored structurally on simulations.py (anchor_gradient_glue: derivative_chain only in "
+              "Simulation.gradient/jvec, on a row, with self.model.property_<d> named) and behaviourally by "
+              "stream (h) on real 4x4x4 Simulations (gradient, jtvec, jvec; all four cases) against the extracted "
+              "chain expression; the adjoint-state gradient itself is C08's subject, not C14's.")
 TECHNIQUE = ("Coq proof over R (Coquelicot auto_derive, field, lra) about a model regenerated from source "
              "with ast + differential correspondence (vm_compute on Q, expression-tree evaluation)")
 DESIGN_REF = "DESIGN.md section 6 C14"
@@ -130,6 +138,51 @@ def anchor_volume_model(ctx):
             'models.py: VolumeModel.__init__ does not compute the conductivities as '
             f'{mname}.map.backward(<property read from {mname} in the same loop>) '
             f'(map.backward calls found at lines {calls}); the coefficient model of C14 is not anchored')
+
+
+def anchor_gradient_glue(ctx):
+    """PREBUILD (fail closed, round 7): in emg3d/simulations.py every call of `map.derivative_chain` must
+    sit directly in Simulation.gradient or Simulation.jvec, act on a row `<array>[<k>, ...]` and name the
+    property array of that row explicitly as `self.model.property_<d>` (the structural assumption of
+    glue_by_name in Model/GradGlue.v: the property is selected BY NAME, not by position); each of the two
+    methods must do so for x, y and z.  The behaviour (which row is which direction) is then compared with
+    real Simulations for all four anisotropy cases by stream (h)."""
+    import ast
+    import os
+    src = open(os.path.join(V.REPO, 'emg3d', 'simulations.py')).read()
+    mod = ast.parse(src)
+    where = {}                                             # lineno -> (function name, direction or None)
+    for cls in [n for n in mod.body if isinstance(n, ast.ClassDef)]:
+        for fn in [n for n in cls.body if isinstance(n, ast.FunctionDef)]:
+            for n in ast.walk(fn):
+                if (isinstance(n, ast.Call) and isinstance(n.func, ast.Attribute)
+                        and n.func.attr == 'derivative_chain'):
+                    d = None
+                    if len(n.args) == 2 and not n.keywords:
+                        a, b = n.args
+                        row = (isinstance(a, ast.Subscript) and isinstance(a.slice, ast.Tuple)
+                               and len(a.slice.elts) == 2 and isinstance(a.slice.elts[0], (ast.Constant, ast.Name))
+                               and isinstance(a.slice.elts[1], ast.Constant) and a.slice.elts[1].value is Ellipsis)
+                        named = (isinstance(b, ast.Attribute) and b.attr in ('property_x', 'property_y', 'property_z')
+                                 and isinstance(b.value, ast.Attribute) and b.value.attr == 'model'
+                                 and isinstance(b.value.value, ast.Name) and b.value.value.id == 'self')
+                        if row and named:
+                            d = b.attr[-1]
+                    where[n.lineno] = (cls.name + '.' + fn.name, d)
+    for n in ast.walk(mod):                                # calls outside of classes (module-level helpers)
+        if (isinstance(n, ast.Call) and isinstance(n.func, ast.Attribute) and n.func.attr == 'derivative_chain'
+                and n.lineno not in where):
+            where[n.lineno] = ('<module level>', None)
+    bad = {ln: w for ln, w in where.items()
+           if w[1] is None or w[0] not in ('Simulation.gradient', 'Simulation.jvec')}
+    per = {f: sorted(w[1] for w in where.values() if w[0] == f and w[1])
+           for f in ('Simulation.gradient', 'Simulation.jvec')}
+    if bad or any(v != ['x', 'y', 'z'] for v in per.values()):
+        raise MG.MapsUntranslatable(
+            'simulations.py: the gradient conversion no longer applies map.derivative_chain to a row '
+            '`<array>[k, ...]` together with `self.model.property_<d>` named explicitly, once per direction, '
+            f'inside Simulation.gradient and Simulation.jvec (found {sorted(where.items())}); the per-row pairing '
+            'model of C14 (Model/GradGlue.v, glue_by_name) is not anchored')
 
 
 SETTER_PARAMS = ['property_x', 'property_y', 'property_z', 'mu_r', 'epsilon_r']
@@ -312,7 +365,7 @@ def gen_setter_order(ctx):
             f.write(text)
 
 
-PREBUILD = [gen_maps, anchor_volume_model, gen_setter_order]
+PREBUILD = [gen_maps, anchor_volume_model, gen_setter_order, anchor_gradient_glue]
 
 
 def trees():
@@ -1286,6 +1339,205 @@ def check_fault_paths(ctx, n, dis, hist, samples):
 
 
 # --------------------------------------------------------- (e) map selection
+# ------------------------------------------- (h) gradient glue: map.derivative_chain per ROW (round 7)
+# Simulation.gradient / jtvec / jvec convert between d/d(sigma) and d/d(mapped parameter) by applying
+# map.derivative_chain to the rows of a (ndir, nx, ny, nz) array.  Row k belongs to the k-th INDEPENDENT
+# direction of the anisotropy case (isotropic: x; HTI: x, y; VTI: x, z; triaxial: x, y, z) and must be
+# scaled by d sigma / d m evaluated at the property array OF THAT direction.
+GLUE_CASES = ['isotropic', 'HTI', 'VTI', 'triaxial']
+GLUE_DIRS = {'isotropic': 'x', 'HTI': 'xy', 'VTI': 'xz', 'triaxial': 'xyz'}
+GLUE_QUICK = ['Resistivity', 'LgConductivity', 'LnResistivity']
+GLUE_HS = [[80.0, 100.0, 125.0, 100.0], [100.0, 125.0, 80.0, 100.0], [125.0, 80.0, 100.0, 100.0]]
+GLUE_TOL = 1e-6           # measured on the unchanged tree: <= 1e-13 (fields identical across mappings)
+_LN10 = float(np.log(10.0))
+# independent of emg3d.maps AND of the extracted trees: m(sigma) and d sigma / d m written out by hand
+GLUE_ORACLE = {
+    'Conductivity': (lambda s: s, lambda m: np.ones_like(m)),
+    'LgConductivity': (lambda s: np.log10(s), lambda m: _LN10 * 10.0 ** m),
+    'LnConductivity': (lambda s: np.log(s), lambda m: np.exp(m)),
+    'Resistivity': (lambda s: 1.0 / s, lambda m: -1.0 / m ** 2),
+    'LgResistivity': (lambda s: -np.log10(s), lambda m: -_LN10 * 10.0 ** (-m)),
+    'LnResistivity': (lambda s: -np.log(s), lambda m: -np.exp(-m)),
+}
+
+
+def glue_inputs(case, seed):
+    """Everything random of one case, drawn in a fixed order (independent of the mapping)."""
+    npr = np.random.RandomState(seed)
+    sig = {d: 10.0 ** npr.uniform(-1.0, 0.5, (4, 4, 4)) for d in 'xyz'}   # cell-wise, x != y != z
+    pert = npr.uniform(-1, 1, (1, 2, 1)) + 1j * npr.uniform(-1, 1, (1, 2, 1))
+    dvec = npr.uniform(-1, 1, (1, 2, 1)) + 1j * npr.uniform(-1, 1, (1, 2, 1))
+    mvec = npr.uniform(0.25, 1, (3, 4, 4, 4)) * npr.choice([-1.0, 1.0], (3, 4, 4, 4))
+    return sig, pert, dvec, mvec
+
+
+def glue_run(case, name, seed, obs=None):
+    """ONE real Simulation (4x4x4 cells, 1 source, 2 receivers, gridding='same', one multigrid cycle per
+    solve -- the relations tested are exact for any deterministic linear solve) with the conductivities of
+    `seed` expressed in mapping `name`: data, gradient, jtvec(dvec), and jvec as a function."""
+    import emg3d
+    dirs = GLUE_DIRS[case]
+    sig, pert, dvec, mvec = glue_inputs(case, seed)
+    grid = emg3d.TensorMesh(GLUE_HS, (0, 0, 0))
+    props = {d: GLUE_ORACLE[name][0](sig[d]) for d in dirs}
+    with np.errstate(all='ignore'), warnings.catch_warnings():
+        warnings.simplefilter('ignore')
+        model = emg3d.Model(grid, mapping=name, **{'property_' + d: props[d].copy() for d in dirs})
+        survey = emg3d.Survey(sources=emg3d.TxElectricDipole((110, 150, 120, 30, 10)),
+                              receivers=[emg3d.RxElectricPoint((290, 250, 200, 10, 10)),
+                                         emg3d.RxElectricPoint((250, 140, 260, 40, -5))],
+                              frequencies=1.0, relative_error=0.02, noise_floor=1e-18)
+        sim = emg3d.Simulation(survey, model, gridding='same', max_workers=1, receiver_interpolation='linear',
+                               verb=-1, tqdm_opts=False,
+                               solver_opts={'tol': 1e-12, 'maxit': 1, 'sslsolver': False,
+                                            'semicoarsening': False, 'linerelaxation': False})
+        sim.compute()
+        syn = np.array(sim.data.synthetic.data, copy=True)
+        if obs is None:
+            obs = syn * (1 + 0.3 * pert)
+        sim.survey.data['observed'][...] = obs
+        nd = len(dirs)
+        grad = np.array(sim.gradient, copy=True).reshape(nd, 4, 4, 4)
+        jt = np.array(sim.jtvec(dvec * np.abs(syn)), copy=True).reshape(nd, 4, 4, 4)
+        grad2 = np.array(sim.gradient, copy=True).reshape(nd, 4, 4, 4)     # gradient after a jtvec
+        return {'dirs': dirs, 'props': props, 'syn': syn, 'obs': obs, 'grad': grad, 'jt': jt, 'grad2': grad2,
+                'jvec': (lambda v: np.array(sim.jvec(v), copy=True)), 'mvec': mvec[:nd], 'sig': sig}
+
+
+def _relmax(a, b):
+    """(max |a - b| / max |b|, flat index of the worst entry); nan-safe (nan counts as infinite)."""
+    d = np.abs(np.asarray(a) - np.asarray(b)).ravel()
+    d = np.where(np.isfinite(d), d, np.inf)
+    scale = float(np.max(np.abs(b)))
+    i = int(np.argmax(d))
+    return (float(d[i]) / scale if scale > 0 and np.isfinite(scale) else float('inf')), i
+
+
+def glue_compare(case, name, seed, factor, tol=GLUE_TOL):
+    """Compare mapping `name` with mapping 'Conductivity' on the same conductivities.  `factor(name, prop)`
+    gives d sigma / d m cell-wise.  Returns (list of findings, worst relative deviation, n comparisons)."""
+    ref = glue_run(case, 'Conductivity', seed)
+    cur = glue_run(case, name, seed, obs=ref['obs'])
+    dirs = ref['dirs']
+    out, worst, n = [], 0.0, 0
+
+    def note(what, row, idx, observed, required, err):
+        out.append({'what': what, 'case': case, 'mapping': name, 'np_seed': seed,
+                    'row': row, 'direction': (dirs[row] if row is not None else None),
+                    'index': idx, 'observed': repr(observed), 'required': repr(required), 'rel_err': err})
+
+    for k, d in enumerate(dirs):
+        if not (np.max(np.abs(ref['grad'][k])) > 0 and np.max(np.abs(ref['jt'][k])) > 0):
+            note('degenerate case: conductivity gradient row is zero', k, None, 0.0, 'non-zero', float('inf'))
+    e, i = _relmax(cur['syn'], ref['syn'])
+    n += 1
+    worst = max(worst, e)
+    if not e <= tol:
+        note('synthetic data depend on the mapping', None, i, complex(cur['syn'].ravel()[i]),
+             complex(ref['syn'].ravel()[i]), e)
+    fac = [np.asarray(factor(name, cur['props'][d]), float) for d in dirs]
+    for what, key in (('gradient', 'grad'), ('jtvec', 'jt'), ('gradient after jtvec', 'grad2')):
+        for k, d in enumerate(dirs):
+            req = ref[key][k] * fac[k]
+            e, i = _relmax(cur[key][k], req)
+            n += 1
+            worst = max(worst, e)
+            if not e <= tol:
+                idx = [int(x) for x in np.unravel_index(i, (4, 4, 4))]
+                note(f'{what}: row {k} (direction {d}) of d/d{name} != row {k} of d/dConductivity * '
+                     f'dsigma/dm(property_{d})', k, idx, float(cur[key][k].ravel()[i]), float(req.ravel()[i]), e)
+                out[-1]['mapped_properties_at_cell'] = {dd: float(cur['props'][dd][tuple(idx)]) for dd in dirs}
+                out[-1]['conductivity_gradient_row_at_cell'] = float(ref[key][k][tuple(idx)])
+                out[-1]['required_factor_at_cell'] = float(fac[k][tuple(idx)])
+    # jvec: J_m v == J_sigma (dsigma/dm(property of the row) * v), v with one non-zero ROW at a time and all rows
+    nd = len(dirs)
+    for rows in [list(range(nd))] + ([[k] for k in range(nd)] if nd > 1 else []):
+        v = np.zeros_like(cur['mvec'])
+        v[rows] = cur['mvec'][rows]
+        jm = cur['jvec'](v.copy())
+        js = ref['jvec'](np.array([fac[k] * v[k] for k in range(nd)]))
+        e, i = _relmax(jm, js)
+        n += 1
+        worst = max(worst, e)
+        if not (e <= tol and np.max(np.abs(js)) > 0):
+            row = rows[0] if len(rows) == 1 else None
+            out.append({'what': f'jvec: J_{name} v != J_Conductivity (dsigma/dm(property of the row) * v), '
+                                f'v non-zero in rows {rows} (directions {[dirs[k] for k in rows]})',
+                        'case': case, 'mapping': name, 'np_seed': seed, 'row': row,
+                        'direction': (dirs[row] if row is not None else None), 'index': i,
+                        'observed': repr(complex(jm.ravel()[i])), 'required': repr(complex(js.ravel()[i])),
+                        'rel_err': e})
+    return out, worst, n
+
+
+def check_gradient_glue(ctx, dis, hist, samples):
+    """Stream (h): required factor = the chain expression EXTRACTED from maps.py (the same tree the Coq
+    theorems `chain_is_derivative` are about), applied to the property of the row's own direction."""
+    tr = trees()
+
+    def factor(name, prop):
+        t = tr[name]
+        return np.array([MG.evaluate(t['chain'], float(x), t) for x in prop.ravel()]).reshape(prop.shape)
+
+    names = [n for n in NAMES if n != 'Conductivity'] if ctx.thorough else GLUE_QUICK
+    count, worst = 0, 0.0
+    # the rows per case used below are those of the Coq model (rows_of, Model/GradGlue.v)
+    rc, out = V.coq_eval('c14_glue', K.CASE_HEADER + "From V Require Import Model.GradGlue.\n"
+                         "Eval vm_compute in map (fun c => map dcode (rows_of c)) all_cases.\n")
+    import re
+    rows = ([[int(x) for x in re.findall(r'\d+', grp)] for grp in re.findall(r'\[([^\[\]]*)\]', V.eval_answers(out)[0])]
+            if rc == 0 else None)
+    if rows != [['xyz'.index(d) for d in GLUE_DIRS[c]] for c in GLUE_CASES]:
+        dis.append({'what': 'rows_of (Model/GradGlue.v) differs from the rows driven by the stream',
+                    'model': repr(rows), 'log': out[-800:] if rc else ''})
+    for case in GLUE_CASES:
+        for name in names:
+            seed = ctx.rng.randint(0, 2 ** 31 - 1)
+            try:
+                found, w, n = glue_compare(case, name, seed, factor)
+            except Exception as e:
+                dis.append({'what': f'gradient glue stream raised {e!r}', 'case': {'case': case, 'mapping': name,
+                                                                                  'np_seed': seed}})
+                continue
+            count += n
+            worst = max(worst, w) if not found else worst
+            hist[f'glue:{case}'] = hist.get(f'glue:{case}', 0) + n
+            for f in found[:2]:
+                dis.append({'what': 'Simulation glue: ' + f['what'],
+                            'case': {k: f[k] for k in ('case', 'mapping', 'np_seed', 'row', 'direction', 'index')},
+                            'impl': f['observed'], 'model': f['required']})
+            if len(samples) < 8 and case == 'VTI' and name == names[0]:
+                samples.append({'stream': 'gradient glue', 'case': case, 'mapping': name, 'np_seed': seed,
+                                'comparisons': n, 'worst_rel_dev': w})
+    hist['glue:worst_rel_dev'] = worst
+    return count
+
+
+def search_gradient_glue(rng, thorough):
+    """Oracle independent of emg3d.maps and of the Coq model: hand-written m(sigma) and dsigma/dm."""
+    names = [n for n in NAMES if n != 'Conductivity'] if thorough else GLUE_QUICK
+    for case in GLUE_CASES:
+        for name in names:
+            seed = rng.randint(0, 2 ** 31 - 1)
+            try:
+                found, _, _ = glue_compare(case, name, seed, lambda nm, p: GLUE_ORACLE[nm][1](p))
+            except Exception as e:
+                glue_run(case, 'Conductivity', seed)       # raises too: not a matter of the mapping -> propagate
+                found = [{'what': f'data / gradient / jtvec / jvec raises under mapping {name} but not under '
+                                  'Conductivity for the same conductivities', 'case': case, 'mapping': name,
+                          'np_seed': seed, 'observed': repr(e), 'required': 'the values under Conductivity '
+                          'times dsigma/dm(property of the row)'}]
+            if found:
+                f = found[0]
+                return dict(f, kind='gradient_glue',
+                            signature=f"Simulation ({case}, mapping {name}): {f['what']}",
+                            setup="TensorMesh(h=%r, origin 0); property_<d> = m(sigma_d), sigma_d = 10**RandomState("
+                                  "np_seed).uniform(-1, .5, (4,4,4)) drawn for x, y, z in this order; "
+                                  "TxElectricDipole(110,150,120,30,10), RxElectricPoint(290,250,200,10,10) and "
+                                  "(250,140,260,40,-5), 1 Hz, gridding='same', one MG cycle (see glue_run)" % (GLUE_HS,))
+    return None
+
+
 def check_selection(ctx, dis):
     import emg3d
     grid = emg3d.TensorMesh([[1.0], [1.0], [1.0]], (0, 0, 0))
@@ -1332,8 +1584,9 @@ def correspondence(ctx):
     n_h, nt = check_histories(ctx, 3000 if ctx.thorough else 400, dis, hist, samples)
     n_f = check_fault_paths(ctx, 72 if ctx.thorough else 24, dis, hist, samples)
     n_s = check_selection(ctx, dis)
+    n_g = check_gradient_glue(ctx, dis, hist, samples)
     return {
-        'evaluations': n_m + n_t + n_c + n_h + n_f + n_s,
+        'evaluations': n_m + n_t + n_c + n_h + n_f + n_s + n_g,
         'distinct_nontrivial': nt,
         'rule': "methods: sigma log-uniform over 1e-6..1e6 plus decade points, six maps, forward/backward/"
                 "derivative_chain vs evaluation of the extracted tree (1e-12); twins: dyadic +- values vs "
@@ -1354,7 +1607,13 @@ def correspondence(ctx):
                 "+-400; Ln*: +-inf, nan, +-800; None property: a valid and an invalid value) in one cell or as a "
                 "scalar, random order, one accepted assignment in between; after EACH op outcome, the five stored "
                 "arrays and the VolumeModel of the same object vs run_history_sp (setter order as generated) and "
-                "eta_of/zeta_of on the model state; distinct non-trivial = distinct "
+                "eta_of/zeta_of on the model state; gradient glue (h): real Simulations (4x4x4 cells, 1 source, 2 "
+                "receivers, gridding='same', one multigrid cycle per solve), anisotropy case {isotropic, HTI, VTI, "
+                "triaxial} x mapping {Resistivity, LgConductivity, LnResistivity} (thorough: all five non-identity "
+                "maps), cell-wise random sigma_x != sigma_y != sigma_z: data, every row of gradient / jtvec(v) / "
+                "gradient-after-jtvec vs the same row under mapping Conductivity times the EXTRACTED chain expression "
+                "at the property of the row's own direction (rows as rows_of in Model/GradGlue.v), jvec with all rows "
+                "and with one non-zero row at a time, 1e-6 relative; distinct non-trivial = distinct "
                 "(map, outcome sequence, None pattern) with at least one rejection",
         'samples': samples[:8],
         'traces_validated_against_impl': n_h + n_f,
@@ -1752,7 +2011,8 @@ def search_fault_paths(rng, thorough):
 def search(ctx, broken):
     rng = ctx.rng
     hits = []
-    for f, args in ((search_fault_paths, (rng, ctx.thorough)),
+    for f, args in ((search_gradient_glue, (rng, ctx.thorough)),
+                    (search_fault_paths, (rng, ctx.thorough)),
                     (search_history, (rng, 200 if ctx.thorough else 60)),
                     (search_acceptance, (rng, 40 if ctx.thorough else 6)),
                     (search_acceptance_aug, (rng, 10 if ctx.thorough else 2)),
@@ -1794,6 +2054,9 @@ def replay(ctx, payload):
         return abs(g[0] - d) <= 1e-9 * max(abs(d), 1e-300)
     if kind in ('coeffs', 'solve'):
         return search_coeffs(rng, 12, solve=(kind == 'solve')) is None
+    if kind == 'gradient_glue':
+        return not glue_compare(fi['case'], fi['mapping'], int(fi['np_seed']),
+                                lambda nm, p: GLUE_ORACLE[nm][1](p))[0]
     if kind == 'history':
         return search_history_case(int(fi['seed'])) is None
     if kind == 'fault_path':
